@@ -1,9 +1,10 @@
 import Pose.Wire
 import Pose.Model.Scan
+import Pose.Model.ScanMem
 import Pose.Model.Lie
 /-! Driver ops for C12 (cumulative products). -/
 namespace PP.Driver
-open PP Wire Scan
+open PP Wire Scan ScanMem
 
 structure M2 where
   a : Nat
@@ -80,6 +81,41 @@ def opsC12 : List (String × Handler) := [
           let items := groupN (lieDim ty) xs
           let out := runList mulf items (left == 1)
           return fmt out.flatten
+      | _ => throw "arity"),
+  -- scan.mem p left inplace base dim rank shape… strides… a b c d …   (storage cells = 2×2 matrices over Z/p)
+  -- reply: overlap(0/1) then, in place: the whole storage after the call; out of place: the whole
+  -- storage followed by the returned (contiguous, fibre-major) tensor
+  ("scan.mem", fun ts => do
+      match ts with
+      | p :: left :: inplace :: base :: dim :: rank :: rest =>
+        let p ← nat p; let left ← nat left; let inplace ← nat inplace
+        let base ← nat base; let dim ← nat dim; let rank ← nat rank
+        let xs ← nats rest
+        if xs.length < 2 * rank ∨ dim ≥ rank then throw "arity"
+        let shape := xs.take rank
+        let strd := (xs.drop rank).take rank
+        let cells := (chunk4 (xs.drop (2 * rank))).toArray
+        let w := mkView shape strd dim base
+        if w.pairs.any (fun q => w.addr q.1 q.2 ≥ cells.size) then throw "out-of-bounds"
+        let o := if left == 1 then (fun a b => M2.mulMod p b a) else M2.mulMod p
+        let ov := if w.nonOverlapB then 0 else 1
+        if inplace == 1 then
+          if ov == 1 then throw "overlap"
+          let out := scanBuf o w cells
+          return fmtNats (ov :: out.toList.flatMap fun m => [m.a, m.b, m.c, m.d])
+        else
+          let out := scanOutBuf o w cells
+          return fmtNats (ov :: out.toList.flatMap fun m => [m.a, m.b, m.c, m.d])
+      | _ => throw "arity"),
+  -- scan.addrs base dim rank shape… strides…  → F L then the address of every element, fibre-major
+  ("scan.addrs", fun ts => do
+      match ts with
+      | base :: dim :: rank :: rest =>
+        let base ← nat base; let dim ← nat dim; let rank ← nat rank
+        let xs ← nats rest
+        if xs.length < 2 * rank ∨ dim ≥ rank then throw "arity"
+        let w := mkView (xs.take rank) ((xs.drop rank).take rank) dim base
+        return fmtNats (w.F :: w.L :: w.pairs.map fun q => w.addr q.1 q.2)
       | _ => throw "arity")
 ]
 end PP.Driver
